@@ -82,3 +82,47 @@ Section Rename.
     destruct (r_path r) eqn:Er; [congruence|]. cbn. auto.
   Qed.
 End Rename.
+
+(* ---- the rename map verify / diff / create apply to the recorded paths (MHLHistory.renamed_path_with_previous_path,
+   as repaired): chains of renames over several generations resolve to the latest name ---- *)
+Lemma find_last_app {A} (f : A -> bool) a b : find_last f (a ++ b) = match find_last f b with Some y => Some y | None => find_last f a end.
+Proof.
+  induction a as [|x a IH]; cbn [app find_last]; [destruct (find_last f b); reflexivity|].
+  rewrite IH. destruct (find_last f b); [reflexivity|]. reflexivity.
+Qed.
+Lemma lookup_last_app m ren k : lookup_last (m ++ ren) k = match lookup_last ren k with Some v => Some v | None => lookup_last m k end.
+Proof. unfold lookup_last. rewrite find_last_app. destruct (find_last _ ren); reflexivity. Qed.
+Lemma lookup_last_map_values (g : path -> path) m k :
+  lookup_last (map (fun kv : path * path => (fst kv, g (snd kv))) m) k = option_map g (lookup_last m k).
+Proof.
+  unfold lookup_last. induction m as [|[k0 v0] m IH]; [reflexivity|]. cbn [map find_last fst snd].
+  destruct (find_last _ (map _ m)) as [y|] eqn:E1; destruct (find_last _ m) as [z|] eqn:E2; cbn [option_map] in *; try congruence.
+  destruct (path_eqb k0 k); reflexivity.
+Qed.
+(* one hash list: its own renames win; otherwise a path known so far follows a further rename of its target *)
+Theorem rename_step_lookup h m g k :
+  lookup_last (rename_step h m g) k =
+  match lookup_last (gen_renames h g) k with
+  | Some v => Some v
+  | None => option_map (fun v => match lookup_last (gen_renames h g) v with Some p => p | None => v end) (lookup_last m k)
+  end.
+Proof.
+  unfold rename_step. rewrite lookup_last_app. destruct (lookup_last (gen_renames h g) k); [reflexivity|].
+  rewrite <- (lookup_last_map_values (fun v => match lookup_last (gen_renames h g) v with Some p => p | None => v end) m k).
+  f_equal. apply map_ext. intros [k0 v0]. cbn [fst snd]. destruct (lookup_last (gen_renames h g) v0); reflexivity.
+Qed.
+(* a -> b in one generation and b -> c in a later one: a (and b) are expected under the name c *)
+Corollary rename_chain_resolved h m g a b c :
+  lookup_last m a = Some b -> lookup_last (gen_renames h g) a = None -> lookup_last (gen_renames h g) b = Some c ->
+  lookup_last (rename_step h m g) a = Some c /\ lookup_last (rename_step h m g) b = Some c.
+Proof.
+  intros Ha Hna Hb. rewrite !rename_step_lookup, Hna, Ha, Hb. cbn [option_map]. rewrite Hb. split; reflexivity.
+Qed.
+Example rename_chain_example :
+  let a := [[97%N]] in let b := [[98%N]] in let c := [[99%N]] in
+  let mk no recs := mkGen no recs None [] [] InPlace in
+  let h := mkLhist [] None [mk 1%N [mkRecord a false None [] None];
+                            mk 2%N [mkRecord b false None [] (Some a)];
+                            mk 3%N [mkRecord c false None [] (Some b)]] [] true in
+  map (renamed [h]) (recorded_paths [h]) = [c; c; c].
+Proof. vm_compute. reflexivity. Qed.
